@@ -98,6 +98,8 @@ def run(chk):
     p2 = C.find_parser(w, C.S + "::update_partial_annotation")
 
     fmt.slot_range_rule(chk, w, "R03.4", WT, 1)
+    fmt.append_only_rule(chk, w, "R03.2", WT)
+    fmt.tag_flatten_rule(chk, w, "R03.3", parser)
     fmt.text_scan_rule(chk, w, "R03.1", parser)
     # ---- tag count taken after the last tag was recorded (both parsers)
     for pfn in (parser,):
